@@ -24,6 +24,21 @@ func (h *Hist) storage(contract types.Address) interface {
 }
 
 func (h *Hist) call(from, contract types.Address, z types.ZenonTokenStandard, amt *big.Int, data []byte, descr string) bool {
+	// hostile variant of any model-guided call: the right amount in another token the sender holds (a contract that
+	// checks only one of the two books a deposit it was not paid)
+	if amt != nil && amt.Sign() > 0 && h.C.Weighted("call.otherToken", 14, 1) == 1 {
+		var others []types.ZenonTokenStandard
+		for _, t := range h.Pools.Tokens {
+			if t != z && t != types.ZeroTokenStandard && h.Balance(from, t).Cmp(amt) >= 0 {
+				others = append(others, t)
+			}
+		}
+		if len(others) > 0 {
+			z = others[h.C.Pick("call.otherTokenIdx", len(others))]
+			descr += " [paid in another token]"
+			h.C.Class("intent-paid-in-another-token")
+		}
+	}
 	b, err := h.Submit(&nom.AccountBlock{Address: from, ToAddress: contract, TokenStandard: z, Amount: amt, Data: data},
 		fmt.Sprintf("intent %s by %s with %v %s", descr, short(from), amt, z.String()[:8]))
 	return err == nil && b != nil
